@@ -59,9 +59,12 @@ def case_to_coq(c):
                                                  C.cq_str(s["ans"])) for s in r["steps"]])
         runs.append("(%s%%nat, %s)" % (C.cq_list([str(i) for i in r["order"]]), steps))
     pkeys = C.cq_list(["(%s, %s)" % (C.cq_str(p[0]), C.cq_str(p[1])) for p in c["pkeys"]])
-    return "c19_case %d %s %s %s %s\n    %s\n    %s" % (
+    ctl = c["obs"].get("ctl") or {"order": [], "steps": []}
+    ctl_s = "(%s%%nat, %s)" % (C.cq_list([str(i) for i in ctl["order"]]),
+                              C.cq_list(["(%s, %s)" % (cq_strs(s["ld"]), cq_strs(s["fl"])) for s in ctl["steps"]]))
+    return "c19_case %d %s %s %s %s\n    %s\n    %s\n    %s" % (
         c["id"], C.cq_bool(c.get("fx", False)), C.cq_bool(c["enabled"]), cq_strs(c["wkeys"]), pkeys,
-        C.cq_list([cq_event(op) for op in c["hist"]]), C.cq_list(runs))
+        C.cq_list([cq_event(op) for op in c["hist"]]), C.cq_list(runs), ctl_s)
 
 
 def usable(c):
@@ -93,6 +96,9 @@ BITS = [
      "DeleteUserSig of an absent key returned UserSigChange.UserSigs=nil although signatures are in force"),
     (4, {"kind": "spec", "class": "other"},
      "the implementation's answers / change lists violate the from-scratch specification"),
+    (16, {"kind": "projection", "class": "usersig_files"},
+     "controller projection: after an operation the user-signature index / files are not exactly the signature sets in force "
+     "for the current objects (syncAppProtectUserSig -> processAppProtectUserSigChange -> RefreshAppProtectUserSigs)"),
     (8, {"kind": "order", "class": "final_answers_differ"},
      "two orders of the same operations ending in the same object set give different answers"),
 ]
@@ -131,6 +137,8 @@ def judge(run, cases, res):
                         theorem="harness c19 generator", found_input=False)
         for nme, v in zip(names, row[8:]):
             ans[nme] = ans.get(nme, 0) + v
+        st["usersig_recreate_updates"] = st.get("usersig_recreate_updates", 0) + sum(1 for o in c["hist"] if o.get("recreate"))
+        st["controller_path_operations"] = st.get("controller_path_operations", 0) + len((c["obs"].get("ctl") or {}).get("order", []))
         st["cases_in_known_class_revtime"] += 1 if bits & 1 else 0
         st["cases_in_known_class_delete_absent"] += 1 if bits & 2 else 0
         small = dict(c)
@@ -159,6 +167,9 @@ TRUSTED = [
     "depend on the order is argued in Model.v (disjoint groups, read-only UserSigs during verifyPolicies) and exercised by the "
     "runtime's random order on every run, the winner being independent of the order is proved (sig_sort_perm_invariant)",
     "projection of error/problem message prose to classes in the harness (string prefixes)",
+    "controller projection: hook harness/overlay/internal/k8s/zz_verif_c19.go builds the LoadBalancerController fields the APUserSig "
+    "path reads (real syncAppProtectUserSig, processAppProtectUserSigChange, Configurator.RefreshAppProtectUserSigs; the NGINX manager "
+    "is a recorder of App Protect files; no Ingress/VirtualServer exists); APPolicy/APLogConf go straight into its Configuration",
     "the model's variant flag fx (F21 repaired or not) is set from a probe of the real isReqSatisfiedByUserSig through "
     "AddOrUpdateUserSig/AddOrUpdatePolicy/GetAppResource on every run; S never looks at it",
 ]
@@ -195,7 +206,9 @@ def check(run):
                        "(boundary equalities), uid letters from a 3x3 pool; tag changes by update; malformed specs (missing required fields, "
                        "signature-requirements not a slice, unparsable min/max/revision times, bad DoS references / log destinations; every "
                        "sixth case draws mostly malformed specs); deletes of absent keys; DoS disabled in 1/12 of the cases; each history is "
-                       "run as generated and in 3 random interleavings that keep the per-object order.  A case is distinct by its full input; "
+                       "run as generated and in 3 random interleavings that keep the per-object order; 18% of the updates of a stored APUserSig are a "
+                       "delete+re-create collapsed into one update (new uid and creation time, same spec); the WAF operations of every history "
+                       "also go through the controller path with a file-recording manager (index.conf and files compared with the sets in force).  A case is distinct by its full input; "
                        "it is trivial when every answer at every step is not-found.")
     run.cov["trusted_base"] = TRUSTED
     run.assumptions += [
@@ -294,4 +307,12 @@ def replay(run, path):
                         print("      UNREPORTED usability flips (missing from the change list): %s" % unreported)
                     if spec is not None and spec != s["ans"]:
                         print("      SPEC :%sanswers=%s" % (" " * 60, spec))
+        ctl = c["obs"].get("ctl")
+        if ctl:
+            print("  controller path (WAF operations in generated order): sets listed by index.conf / files in the folder")
+            for j, stp in zip(ctl["order"], ctl["steps"]):
+                op = c["hist"][j]
+                print("    op %d %s %s/%s%s -> index=%s files=%s" % (j, ["APPolicy", "APLogConf", "APUserSig"][op["k"]], op["ns"], op["name"],
+                                                                      " DELETE" if op.get("del") else (" (re-created)" if op.get("recreate") else ""),
+                                                                      stp["ld"], stp["fl"]))
     judge(run, cases, res)
